@@ -53,6 +53,9 @@ TARGETS = {
     "doy+end": ("/dst/{sat}/{year}-{doy}/{hour}{minute}-{end_hour}{end_minute}.bin",
                 lambda sat, t0, t1: "/dst/%s/%04d-%03d/%02d%02d-%02d%02d.bin" % (
                     sat, t0.year, t0.timetuple().tm_yday, t0.hour, t0.minute, t1.hour, t1.minute)),
+    "end-doy": ("/dst/{year}{doy}T{hour}{minute}-{end_year}{end_doy}T{end_hour}{end_minute}_{sat}.bin",
+                lambda sat, t0, t1: "/dst/%04d%03dT%02d%02d-%04d%03dT%02d%02d_%s.bin" % (
+                    t0.year, t0.timetuple().tm_yday, t0.hour, t0.minute, t1.year, t1.timetuple().tm_yday, t1.hour, t1.minute, sat)),
     "flat-year2": ("/dst/{year2}{month}{day}{hour}{minute}{second}_{sat}.bin",
                    lambda sat, t0, t1: "/dst/%02d%02d%02d%02d%02d%02d_%s.bin" % (
                        t0.year % 100, t0.month, t0.day, t0.hour, t0.minute, t0.second, sat)),
@@ -149,6 +152,34 @@ def k_move(ctx):
         t1_exp = t1 if "end_" in tmpl else t0
         ctx.check("target-name-parses-back-to-the-same-times", info.times[0] == t0 and info.times[1] == t1_exp
                   and info.attr.get("sat") == sat, detail="%s parsed %r" % (new, info.times))
+
+
+@harness("C11.move-single-file", cases=lambda tier: [(c, v) for c in (False, True) for v in (False, True, "callable")],
+         expect=lambda c: ["single-file-move"])
+def k_move_single(ctx):
+    """a fileset without placeholders is one file: move / copy / convert act on it"""
+    copy, convert = ctx.case
+    mfs = ModelFS(ctx, max_faults=0)
+    h_src, h_dst = TokenHandler(mfs, "src"), TokenHandler(mfs, "dst")
+    mfs.files["/src/static.dat"] = ("content", "static")
+    mfs.files["/src/other.dat"] = ("content", "other")
+    src = make_fileset(ctx, "/src/static.dat", mfs, handler=h_src, name="src")
+    dst = make_fileset(ctx, "/dst/renamed.bin", mfs, handler=h_dst, name="dst")
+    conv = (lambda d: ("converted", d)) if convert == "callable" else convert
+    ex = ModelExecutor(ctx, horizon=0)
+    with _env(ctx, mfs, ex):
+        src.move(dst, convert=conv, copy=copy)
+    old = ("content", "static")
+    if convert == "callable":
+        want = ("written-by-dst", ("converted", ("data", old, ())), ())
+    elif convert:
+        want = ("written-by-dst", ("data", old, ()), ())
+    else:
+        want = old
+    ctx.check("single-file-move", mfs.files.get("/dst/renamed.bin") == want,
+              detail="target holds %r want %r" % (mfs.files.get("/dst/renamed.bin"), want))
+    ctx.check("single-file-move", ("/src/static.dat" in mfs.files) == bool(copy), detail="original kept=%r" % ("/src/static.dat" in mfs.files))
+    ctx.check("single-file-move", mfs.files.get("/src/other.dat") == ("content", "other"))
 
 
 @harness("C11.delete", cases=lambda tier: [False, True],
@@ -254,13 +285,13 @@ def k_dispatch(ctx):
 
 
 PLAN = {
-    "quick": {"harnesses": ["C11.move", "C11.delete", "C11.write-read", "C11.handler-dispatch"],
+    "quick": {"harnesses": ["C11.move", "C11.move-single-file", "C11.delete", "C11.write-read", "C11.handler-dispatch"],
               "opts": {"query_timeout_ms": 10000, "chunk_paths": 40}},
-    "thorough": {"harnesses": ["C11.move", "C11.delete", "C11.write-read", "C11.handler-dispatch"],
+    "thorough": {"harnesses": ["C11.move", "C11.move-single-file", "C11.delete", "C11.write-read", "C11.handler-dispatch"],
                  "opts": {"query_timeout_ms": 20000, "chunk_paths": 40}},
 }
 BOUNDS = {"population": "5 concrete source files in a year/month/day tree at year / leap-day / month boundaries plus an unrelated file; "
-                        "2 target templates (doy + end fields + user placeholder directory; flat two-digit year)",
+                        "3 target templates (doy + end fields + user placeholder directory; end_year + end_doy; flat two-digit year); a single-file fileset",
           "selection": "every period [start, end) with microsecond bounds in 2019-12-01 .. 2020-04-01 (symbolic), optional filter; "
                        "copy / convert / dry_run on and off",
           "write/read": "3 concrete periods x plain / gz / zip / post_reader"}
